@@ -1,6 +1,8 @@
 package rig
 
 import (
+	"time"
+
 	"bytes"
 	"encoding/gob"
 	"encoding/hex"
@@ -327,4 +329,33 @@ func (n *Node) OwnerAt(ts int64) int {
 		}
 	}
 	return -1
+}
+
+func (n *Node) Anchors() *AnchorsRsp {
+	r, err := n.hub.RequestFuture(message.ChainSvc, &message.GetAnchors{Seq: 1}, 60*time.Second, "rig").Result()
+	if err != nil {
+		return &AnchorsRsp{Err: "request: " + err.Error()}
+	}
+	rsp := r.(message.GetAnchorsRsp)
+	out := &AnchorsRsp{Hashes: rsp.Hashes, LastNo: rsp.LastNo}
+	if rsp.Err != nil {
+		out.Err = rsp.Err.Error()
+	}
+	return out
+}
+
+func (n *Node) Ancestor(hashes [][]byte) *AncestorRsp {
+	r, err := n.hub.RequestFuture(message.ChainSvc, &message.GetAncestor{Hashes: hashes}, 60*time.Second, "rig").Result()
+	if err != nil {
+		return &AncestorRsp{Err: "request: " + err.Error()}
+	}
+	rsp := r.(message.GetAncestorRsp)
+	out := &AncestorRsp{}
+	if rsp.Ancestor != nil {
+		out.Hash, out.No = rsp.Ancestor.Hash, rsp.Ancestor.No
+	}
+	if rsp.Err != nil {
+		out.Err = rsp.Err.Error()
+	}
+	return out
 }
